@@ -20,6 +20,11 @@ KEPT = ["`celldefine", "`endcelldefine", "`resetall", "`timescale 1ns/1ps", "`ti
         "`line 3 \"f.v\" 1", "`pragma foo", "`pragma protect a=1, b", "`begin_keywords \"1364-2001\"",
         "`end_keywords"]
 MACROS = ["A", "B", "CC", "D_1", "EE"]
+# IEEE 1800-2017 40.3.1: predefined coverage macros (every run starts with them)
+SV_COV = [("SV_COV_START", "0"), ("SV_COV_STOP", "1"), ("SV_COV_RESET", "2"), ("SV_COV_CHECK", "3"),
+          ("SV_COV_MODULE", "10"), ("SV_COV_HIER", "11"), ("SV_COV_ASSERTION", "20"), ("SV_COV_FSM_STATE", "21"),
+          ("SV_COV_STATEMENT", "22"), ("SV_COV_TOGGLE", "23"), ("SV_COV_OVERFLOW", "-2"), ("SV_COV_ERROR", "-1"),
+          ("SV_COV_NOCOV", "0"), ("SV_COV_OK", "1"), ("SV_COV_PARTIAL", "2")]
 
 
 class It:
@@ -121,7 +126,8 @@ class Ref:
 
     def __init__(self, files, predefs, strip=False, ignore_include=False, limit=64):
         self.files = {f.path: f for f in files}
-        self.defs = dict(predefs)
+        self.defs = {k: dict(formals=None, body=v, file=None, body_off=None) for k, v in SV_COV}
+        self.defs.update(predefs)
         self.strip = strip
         self.ignore = ignore_include
         self.out = []       # (char, prov) non-blank only
